@@ -16,6 +16,33 @@ import z3
 IntSeq = z3.SeqSort(z3.IntSort())
 
 
+_HAS_NTH: dict[int, tuple[Any, bool]] = {}
+
+
+def has_nth(t: Any) -> bool:
+    k = t.get_id()
+    hit = _HAS_NTH.get(k)
+    if hit is not None:
+        return hit[1]
+    if z3.is_app(t) and t.decl().kind() in (z3.Z3_OP_SEQ_NTH, z3.Z3_OP_SEQ_AT):
+        r = True
+    elif z3.is_quantifier(t):
+        r = False
+    else:
+        r = any(has_nth(c) for c in t.children())
+    _HAS_NTH[k] = (t, r)
+    return r
+
+
+def simp(t: Any) -> Any:
+    """z3.simplify, except on terms with seq.nth: the rewriter turns nth into an if-then-else on
+    the bounds (already decided by the IndexError fork) and then lifts it out of concatenations,
+    which destroys the part structure of byte strings."""
+    if has_nth(t):
+        return t
+    return z3.simplify(t)
+
+
 class Unsupported(Exception):
     """Construct outside the PyV subset: aborts the verification unit (exit 3), never a verdict."""
 
